@@ -1237,11 +1237,12 @@ fn run_params(plan: &Plan, lib: &dyn Lib, g: Grp, rec: &mut Rec) {
     // t-of-n: t shares give the key, t-1 shares do not.
     for (t, n) in [(2u64, 3u64), (3, 5), (4, 6)] {
         for k in 0..(t + 2) {
-            for fill in [0u8, 0xff] {
-                let o = rec.call(lib, g, Op::SplitFaultyRng, &[&sk, &u64b(t), &u64b(n), &s32, &u64b(k), &[fill]]);
+            // one bad answer (zeros, 0xff), and an OUTAGE: 20 or 64 consecutive requests answered with zeros
+            for (fill, width) in [(0u8, 1u64), (0xff, 1), (0, 20), (0, 64)] {
+                let o = rec.call(lib, g, Op::SplitFaultyRng, &[&sk, &u64b(t), &u64b(n), &s32, &u64b(k), &[fill], &u64b(width)]);
                 let Some(shares) = o.clone().ok() else { continue };
                 rec.fault("entropy-source-transient-fault");
-                rec.case(&[4, t, n, g as u64, k, fill as u64], true);
+                rec.case(&[4, t, n, g as u64, k, fill as u64, width], true);
                 let refs: Vec<&[u8]> = shares.iter().map(|b| b.as_slice()).collect();
                 let full = rec.call(lib, g, Op::Combine, &refs[..t as usize]);
                 rec.expect("C08", "key-recombine", full.first() == Some(sk.as_slice()), || format!("faulty-rng t={} n={} request {} answered with {:#04x} bytes | t shares do not recombine to the key: {:?}", t, n, k, fill, full.kind()));
